@@ -12,7 +12,7 @@ VARIABLE i
 Trace == ndJsonDeserialize(IOEnv.TRACE_FILE)
 
 TInit == /\ i \in 1..Len(Trace)
-         /\ doc = <<>> /\ cfg = [H |-> 0, W |-> 0, ow |-> 0] /\ c = 1 /\ opos = <<>> /\ ranch = {} /\ cur = <<>> /\ pages = <<>> /\ phase = "trace"
+         /\ doc = <<>> /\ cfg = [H |-> 0, W |-> 0, ow |-> 0] /\ c = 1 /\ opos = <<>> /\ ranch = {} /\ cur = <<>> /\ pages = <<>> /\ phase = "trace" /\ blank = FALSE /\ ifl = {}
 TNext == UNCHANGED <<vars, i>>
 Verdict(r) == Accept(r.doc, r.pages)
 \* always TRUE; prints the index and the reason of every rejected record
